@@ -622,7 +622,7 @@ class C17(TraceProp):
 
 class C10(TraceProp):
     id = 'C10'
-    theorems = ['Continuum.c10_holds', 'Continuum.c10_linkInv_init', 'Continuum.c10_linkInv_after_commit', 'Continuum.history_c10', 'Continuum.linkInv_before',
+    theorems = ['Continuum.c10_holds', 'Continuum.c10_linkInv_init', 'Continuum.c10_linkInv_after_commit', 'Continuum.history_c10', 'Continuum.linkInv_before', 'Continuum.afterFlush_processed_corrected',
                 'Continuum.c10_linkInv_after_rollback', 'Continuum.c10_no_error', 'Continuum.c04_links_stable_step',
                 'Continuum.c10_twice_counterexample']
     sections = ('assoc', 'versions', 'mgr')
